@@ -278,4 +278,119 @@ def toMesh {τ α : Type} (g : Group τ α) : String × Mesh α :=
 def faceCount {τ α : Type} (ls : List (Line τ α)) : Nat :=
   (ls.filter fun l => match l with | .f _ _ _ => true | _ => false).length
 
+/-! ### what the property says (decidable predicates, evaluated by the driver on implementation output) -/
+
+section spec
+variable {α : Type} [DecidableEq α]
+
+def V3.map {β : Type} (f : α → β) (v : V3 α) : V3 β := ⟨f v.x, f v.y, f v.z⟩
+def V2.map {β : Type} (f : α → β) (v : V2 α) : V2 β := ⟨f v.x, f v.y⟩
+
+/-- per-corner content of attribute `src` (through `idx`) is found again in `dst` (through `ridx`);
+    an absent attribute must be absent again.  Every lookup must succeed. -/
+def attrMatches {β : Type} [DecidableEq β] (f : β → β) (idx ridx : List Nat) (src dst : Option (List β)) : Bool :=
+  match src, dst with
+  | none, none => true
+  | some a, some b =>
+    let want := idx.map fun i => (a[i]?).map f
+    want.all Option.isSome && ridx.map (fun i => b[i]?) == want
+  | _, _ => false
+
+/-- read-back mesh `r` carries the triangles of `m`: same count and order, same per-corner position /
+    texture coordinate / normal (scalars through `rt` = print-then-parse), material ranges `mats`.
+    A mesh without triangles comes back without attribute arrays. -/
+def MeshMatches (rt : α → α) (m : Mesh α) (mats : List (Option String × Nat)) (r : Mesh α) : Bool :=
+  r.idx.length == m.idx.length && r.mats == mats &&
+  (if m.idx = [] then r.pos == none && r.uv == none && r.nrm == none
+   else attrMatches (V3.map rt) m.idx r.idx m.pos r.pos && attrMatches (V2.map rt) m.idx r.idx m.uv r.uv &&
+        attrMatches (V3.map rt) m.idx r.idx m.nrm r.nrm)
+
+def writtenMats (m : Mesh α) : List (Option String × Nat) := m.mats.map fun (n, c) => (some (matName n), c)
+
+/-- **C05 round trip, as the property states it**: one group per mesh, same names, same triangles and
+    per-corner data, same material ranges -/
+def RoundTrips (rt : α → α) (ms gs : List (String × Mesh α)) : Bool :=
+  ms.length == gs.length &&
+  (ms.zip gs).all fun (p, r) => p.1 == r.1 && MeshMatches rt p.2 (writtenMats p.2) r.2
+
+/-- what the code does with material ranges: a mesh without ranges (but with faces) inherits the
+    material in effect — the last `usemtl` written for an earlier mesh -/
+def expectMats (carry : Option String) (m : Mesh α) : List (Option String × Nat) :=
+  if m.mats ≠ [] then writtenMats m
+  else match carry with
+    | some a => if m.idx = [] then [] else [(some a, m.idx.length / 3)]
+    | none => []
+
+def nextCarry (carry : Option String) (m : Mesh α) : Option String :=
+  match m.mats.getLast? with
+  | some (n, _) => some (matName n)
+  | none => carry
+
+def RoundTripsCarry (rt : α → α) : Option String → List (String × Mesh α) → List (String × Mesh α) → Bool
+  | _, [], [] => true
+  | carry, p :: ms, r :: gs =>
+    p.1 == r.1 && MeshMatches rt p.2 (expectMats carry p.2) r.2 && RoundTripsCarry rt (nextCarry carry p.2) ms gs
+  | _, _, _ => false
+
+/-- the faces of a text, resolved: every corner replaced by the pool entries it refers to at that
+    point of the file (`none` = unresolvable).  Independent of the reader's grouping / de-duplication. -/
+structure RCorner (α : Type) where
+  p : V3 α
+  t : Option (V2 α)
+  n : Option (V3 α)
+deriving DecidableEq
+
+def resolveCorner (pv pn : List (V3 α)) (pt : List (V2 α)) (c : Corner) : Option (RCorner α) :=
+  if c.v = 0 then none else
+  match pv[c.v - 1]? with
+  | none => none
+  | some p =>
+    match slot c.vt, slot c.vn with
+    | none, none => some ⟨p, none, none⟩
+    | some i, none => (pt[i]?).map fun t => ⟨p, some t, none⟩
+    | none, some j => (pn[j]?).map fun n => ⟨p, none, some n⟩
+    | some i, some j => match pt[i]?, pn[j]? with
+      | some t, some n => some ⟨p, some t, some n⟩
+      | _, _ => none
+
+def resolveFaces {τ : Type} (pc : τ → Except Err Corner) :
+    List (V3 α) → List (V3 α) → List (V2 α) → List (Line τ α) → List (Option (RCorner α × RCorner α × RCorner α))
+  | _, _, _, [] => []
+  | pv, pn, pt, .v p :: ls => resolveFaces pc (pv ++ [p]) pn pt ls
+  | pv, pn, pt, .vn p :: ls => resolveFaces pc pv (pn ++ [p]) pt ls
+  | pv, pn, pt, .vt p :: ls => resolveFaces pc pv pn (pt ++ [p]) ls
+  | pv, pn, pt, .f a b c :: ls =>
+    (match pc a, pc b, pc c with
+     | .ok a, .ok b, .ok c =>
+       match resolveCorner pv pn pt a, resolveCorner pv pn pt b, resolveCorner pv pn pt c with
+       | some a, some b, some c => some (a, b, c)
+       | _, _, _ => none
+     | _, _, _ => none) :: resolveFaces pc pv pn pt ls
+  | pv, pn, pt, _ :: ls => resolveFaces pc pv pn pt ls
+
+/-- shape of a corner: which slots are present -/
+def Corner.shape (c : Corner) : Bool × Bool := ((slot c.vt).isSome, (slot c.vn).isSome)
+
+/-- all face corners of the group have one shape (then `normals` / `uvs` are aligned with `verts`) -/
+def Group.uniform {τ : Type} (pc : τ → Except Err Corner) (g : Group τ α) : Bool :=
+  let shapes := g.ftoks.flatMap fun (a, b, c) => [a, b, c].map fun t => match pc t with
+    | .ok c => some c.shape
+    | .error _ => none
+  match shapes with
+  | [] => true
+  | s :: r => r.all (· == s)
+
+/-- **C05 re-save**: the saved text `t'` has exactly the faces of `t` — as many, in the same order, each
+    corner resolving to the same position / texture coordinate / normal (scalars through `rt`) -/
+def Resaves {τ τ' : Type} (pc : τ → Except Err Corner) (pc' : τ' → Except Err Corner) (rt : α → α)
+    (t : List (Line τ α)) (t' : List (Line τ' α)) : Bool :=
+  let a := resolveFaces pc [] [] [] t
+  let b := resolveFaces pc' [] [] [] t'
+  faceCount t' == faceCount t && a.all Option.isSome &&
+  b == a.map fun o => o.map fun (x, y, z) =>
+    let f (c : RCorner α) : RCorner α := ⟨c.p.map rt, c.t.map (V2.map rt), c.n.map (V3.map rt)⟩
+    (f x, f y, f z)
+
+end spec
+
 end PolyVerif.Obj
